@@ -133,6 +133,8 @@ def run_history(ctx, init, steps, variant, kind):
     case = {"kind": kind, "init": init, "steps": steps, "variant": variant}
     rng = __import__("random").Random(variant)
     df = motlutil.vary_index(motlutil.poses_to_df(init, rng), variant)
+    if (variant // 16) % 3 == 0:
+        df = motlutil.int_positions(df)          # integer-typed position / shift columns where the values allow it
     motl = cryomotl.Motl(df)
     cache = {} if len(steps) > 1 else None
     for i, st in enumerate(steps):
@@ -223,7 +225,10 @@ def run_float(ctx, cases):
             cols["phi"][k], cols["theta"][k], cols["psi"][k] = p["ang"]
             cols["tomo_id"][k] = p["tomo"]
             cols["subtomo_id"][k] = k + 1
-        motl = cryomotl.Motl(motlutil.vary_index(motlutil.df_from_cols(cols), case["id"]))
+        fdf = motlutil.vary_index(motlutil.df_from_cols(cols), case["id"])
+        if case["id"] % 3 == 0:
+            fdf = motlutil.int_positions(fdf)
+        motl = cryomotl.Motl(fdf)
         events = []
         aborted = None
         drows = [[int(t)] + list(d) for t, d in sorted(case["dims"].items())] + [[77, 50, 60, 70]]
